@@ -299,7 +299,24 @@ def r5_abort(ctx):
         if isinstance(st, ast.Assign) and isinstance(st.value, ast.Call) and isinstance(st.value.func, ast.Attribute) and st.value.func.attr in ('run_in_executor', 'submit'):
             if {a.id for a in st.value.args if isinstance(a, ast.Name)} & {p.name for p in producers}:
                 fut |= {t.id for t in st.targets if isinstance(t, ast.Name)}
-    p_stmts = [enclosing_stmt(n) for n in walk_local(snap.node) if isinstance(n, ast.Await) and isinstance(n.value, ast.Name) and n.value.id in fut]
+    p_stmts = [enclosing_stmt(n) for n in walk_local(snap.node) if isinstance(n, ast.Await) and any(isinstance(x, ast.Name) and x.id in fut for x in ast.walk(n.value))]
+    # the completion flag polled by the workers flips on the event-loop thread only
+    for w in snap.nested.values():
+        for n in walk_local(w.node):
+            if isinstance(n, ast.While):
+                for c in calls_in(n.test):
+                    if isinstance(c.func, ast.Attribute) and c.func.attr == 'done' and isinstance(c.func.value, ast.Name):
+                        nm = c.func.value.id
+                        defs = [a for a in walk_local(snap.node) if isinstance(a, ast.Assign) and any(isinstance(t, ast.Name) and t.id == nm for t in a.targets)]
+                        ok = bool(defs) and all(isinstance(a.value, ast.Call) and isinstance(a.value.func, ast.Attribute) and a.value.func.attr == 'run_in_executor' for a in defs)
+                        ctx.check(
+                            ok,
+                            'C09.R5',
+                            f'{func_label(snap)}|completion-flag-is-loop-future',
+                            loc(w, n),
+                            f'the worker loop polls `{nm}.done()` of an event-loop future (it can only flip between coroutine steps, so `queue empty or done` is evaluated atomically)',
+                            f'`{nm}.done()` polled by the worker loop belongs to a thread-side future (not loop.run_in_executor): it can flip between the `empty()` and `done()` checks and a worker exits with the last chunk still queued',
+                        )
     ctx.floor('C09.R5', 'await of the producer future', len(p_stmts))
     # worker join: awaited statement that applies a nested function referencing upload_stream
     workers = {f.name for f in snap.nested.values() if any(isinstance(n, ast.Attribute) and n.attr == 'upload_stream' for n in walk_local(f.node))}
@@ -527,3 +544,6 @@ def run(ctx):
     r5_abort(ctx)
     r6_locks(ctx)
     r8_tokens(ctx)
+    from .c01 import digest_cleared_after_writes
+
+    digest_cleared_after_writes(ctx, 'C09.R7')
